@@ -360,17 +360,24 @@ func (obj *SparseConstInt16VectorJointIterator) Index() int {
   return obj.idx
 }
 func (obj *SparseConstInt16VectorJointIterator) Ok() bool {
-  return !(obj.s1.GetInt16() == int16(0)) ||
-         !(obj.s2.GetInt16() == int16(0))
+  return obj.idx != -1
 }
 func (obj *SparseConstInt16VectorJointIterator) Next() {
   ok1 := obj.it1.Ok()
   ok2 := obj.it2.Ok()
+  if !ok1 && !ok2 {
+    // both iterators are exhausted
+    obj.idx = -1
+  }
+  // use1, use2: the iterators that contribute to the current position
+  use1 := false
+  use2 := false
   obj.s1 = ConstInt16(0)
   obj.s2 = ConstInt16(0)
   if ok1 {
     obj.idx = obj.it1.Index()
     obj.s1 = obj.it1.GET()
+    use1 = true
   }
   if ok2 {
     switch {
@@ -378,17 +385,21 @@ func (obj *SparseConstInt16VectorJointIterator) Next() {
       obj.idx = obj.it2.Index()
       obj.s1 = ConstInt16(0)
       obj.s2 = obj.it2.GetConst()
+      use1 = false
+      use2 = true
     case obj.idx == obj.it2.Index():
       obj.s2 = obj.it2.GetConst()
+      use2 = true
     }
   }
-  if obj.s1 != ConstInt16(0) {
+  if use1 {
     obj.it1.Next()
   }
-  if obj.s2 != ConstInt16(0) {
+  if use2 {
     obj.it2.Next()
-  } else {
-    obj.s2 = ConstInt16(0.0)
+  }
+  if obj.s2 == nil {
+    obj.s2 = ConstInt16(0)
   }
 }
 func (obj *SparseConstInt16VectorJointIterator) GetConst() (ConstScalar, ConstScalar) {
